@@ -70,12 +70,12 @@ INDEX_PAIRS = Ob("C05-F2", "R-FLOW", "each (get_rtreeindex, write_rtreeindex) pa
 ZOOM_OFFSETS = Ob("C07-F1", "R-FLOW", "zoom directory entries: data_offset = tell() before the level's data, index_offset = tell() right before its index; sections re-based from data_offset", WF.ob_zoom_offsets, floor=3)
 
 WIG_SUMMARY = Ob("C06-A1", "R-STAT", "bigWig per-chromosome summary in normal form (len=end-start, val=value), seeds and empty-chromosome reset", ST.ob_wig_summary, floor=3)
-BED_SUMMARY = Ob("C06-A2", "R-STAT", "bigBed summary over flushed depth segments in normal form; first-item arm agrees with update arm", ST.ob_bed_summary)
+BED_SUMMARY = Ob("C06-A2", "R-STAT", "bigBed chromosome summary: the whole sweep (add_interval_to_summary) run on a stand-in depth list for small entry sequences equals the coverage depth statistics of the bases before the next entry (normal-form reading when it cannot be run)", ST.ob_bed_summary)
 MERGE = Ob("C06-A3", "R-STAT", "chromosome summaries merged field-wise (+=, min, max), first taken as is", ST.ob_merge, floor=2)
-TOTAL_ITEMS = Ob("C02-F1", "R-FLOW", "bigBed total_items += 1 exactly once per entry, unconditionally, stored into the summary", ST.ob_total_items, floor=2)
+TOTAL_ITEMS = Ob("C02-F1", "R-FLOW", "bigBed total_items += 1 exactly once per entry, unconditionally; destroy evaluated with and without a coverage summary: the count reaches the chromosome summary in both cases", ST.ob_total_items, floor=2)
 WIG_ZOOM_STAT = Ob("C07-A1", "R-STAT", "bigWig zoom record update in normal form; fresh record seeded start=end=add_start, min=max=val", ST.ob_wig_zoom_stat)
 BED_ZOOM_STAT = Ob("C08-A1", "R-STAT", "bigBed zoom record update in normal form; fresh record seeded min=max=first depth; total_items from the paired counter", ST.ob_bed_zoom_stat, floor=2)
-AVG_STATS = Ob("C17-A1", "R-STAT", "stats_for_bed_item: bases/sum/min/max accumulation, size, mean0, NaN iff nothing covered", ST.ob_avg_stats)
+AVG_STATS = Ob("C17-A1", "R-STAT", "stats_for_bed_item evaluated over a mocked reader: size, bases, sum, mean0, mean, min, max as defined; NaN iff nothing covered (accumulation loop read when it cannot be run)", ST.ob_avg_stats)
 WIG_TILING = Ob("C07-S1w", "R-SIB", "bigWig zoom tiling loop clauses incl. cursor = max(add_end, value start) decided over order types", SW.ob_wig_tiling, floor=3)
 BED_TILING = Ob("C07-S1b", "R-SIB", "bigBed zoom tiling loop clauses (same normal form as the bigWig sibling)", SW.ob_bed_tiling, floor=3)
 SWEEPS = Ob("C06-S1", "R-SIB", "bigBed depth sweeps (summary vs zoom): identical increment loop, tail extension by exhaustive cases, flush loop, end-of-chromosome flush", SW.ob_sweeps, floor=7)
@@ -159,6 +159,7 @@ BLOCK_DATA = Ob("C10-F1", "R-FLOW", "read_block_data: block.size bytes at block.
 from ..obs import offsets as OF
 TREE_OFFSETS = Ob("C05-F1", "R-FLOW", "R-tree offset premises: level sizes, child offset = base + i*full_size by child kind, descent with accumulated offsets, levels written root->leaves", OF.ob_tree_offsets, floor=3)
 EVERY_VALUE = Ob("C06-O1", "R-ORDER", "no early success exit: every accepted value reaches the summary / depth sweep, items buffer, flush test and every zoom level", SW.ob_every_value_processed, floor=6)
+WINDOW_HANDOFF = Ob("C15-W2", "R-EVAL", "merge window hand-off: the run held back from the previous window is put in front of the next window's runs without changing the value of any base (evaluated, with insert_into_queue and merge_into)", MF.ob_window_handoff, floor=1)
 WINDOW = Ob("C15-W1", "R-EQUIV+R-ORDER", "merge window accumulator: slot range, hold-back conditions, extent and advance decided as functions of (window start, value start/end, window size); accumulate-then-extend before any exit; f64 accumulation; zero runs dropped", MF.ob_window, floor=5)
 
 NODE_COUNTS = Ob("C05-N1", "R-BOUND", "R-tree 16-bit child counts: block size capped at 65535 for chunking, node sizes and header", OF.ob_node_counts, floor=2)
@@ -178,7 +179,7 @@ ZOOMCOUNT_SIBS = Ob("C07-Z2", "R-SIB", "first-pass zoom counters identical (bigW
 PROCESSOR_ARGS = Ob("C01-F5", "R-FLOW", "each processor hands its per-value function the value, the next value, the chromosome length / id and its own state (8 call sites)", SW.ob_processor_args, floor=8)
 PROCESS_DATA = Ob("C01-F6", "R-FLOW", "positional hand-over structs (InternalProcessData, NoZooms.., Zooms..) are built and destructured with the same meaning per position", WF.ob_process_data_positions, floor=6)
 
-PARSER_TABLES = Ob("C19-K1", "R-TABLE", "autoSql parser: declaration list not capped; keyword -> declaration type agrees in both parsers; names are identifiers", AQ.ob_parser_tables, floor=4)
+PARSER_TABLES = Ob("C19-K1", "R-TABLE", "autoSql parser: declaration list not capped; keyword -> declaration type agrees in both parsers; names are identifiers (validity test evaluated on 13 names); every whitespace character and `;()[],` end a word (is_word_delimiter evaluated)", AQ.ob_parser_tables, floor=4)
 EMPTY_AND_TOOL_REFUSALS = Ob("C13-G10", "R-ERR", "writer refuses a source that starts no chromosome; converters never return Ok(()) after creating the output", RF.ob_empty_and_tool_refusals, floor=5)
 from ..obs import mirobs as MO
 MIR_RESULTS = Ob("C14-E3", "R-ERR", "type-resolved (MIR): no Result produced by a call in non-test workspace code is dropped or collapsed without propagation", MO.ob_results_used, floor=1)
